@@ -311,23 +311,46 @@ def write_replay(prop, obl, witness):
     return fn
 
 
+def build_replay_tool():
+    """(re)build the replay tool against /repo's current working tree (cargo is incremental)"""
+    d = os.path.join(VERIF, "tools", "replay")
+    env = dict(os.environ, CARGO_NET_OFFLINE="true", CARGO_TARGET_DIR=os.path.join(BUILD, "replay-target"))
+    try:
+        p = subprocess.run(["cargo", "build", "--release", "--offline"], cwd=d, env=env, capture_output=True, text=True, timeout=1200)
+    except subprocess.TimeoutExpired:
+        return None
+    tool = os.path.join(BUILD, "replay-target", "release", "replay")
+    if p.returncode != 0 or not os.path.exists(tool):
+        log("replay tool did not build:", p.stderr[-500:])
+        return None
+    return tool
+
+
 def witness_search(prop, obl, tier):
     """DESIGN §3.5: drive the real crates on small inputs; never the deciding step."""
     fam = props.PROPS[prop].get("witness_family")
-    tool = os.path.join(BUILD, "replay-target", "release", "replay")
-    if not fam or not os.path.exists(tool):
+    if not fam:
         return None
+    tool = build_replay_tool()
+    if not tool:
+        return None
+    fam = obl.get("family") or fam
+    outp = os.path.join(BUILD, "witness.%d.json" % os.getpid())
+    if os.path.exists(outp):
+        os.remove(outp)
     try:
         p = subprocess.run([tool, "search", fam, "--obligation", obl["id"], "--tier", tier], capture_output=True,
-                           text=True, timeout=600 if tier == "thorough" else 120,
-                           env=dict(os.environ, VERIF_SEED=os.environ.get("VERIF_SEED", "0")))
+                           text=True, timeout=900 if tier == "thorough" else 240,
+                           env=dict(os.environ, VERIF_SEED=os.environ.get("VERIF_SEED", "0"), REPLAY_OUT=outp))
     except subprocess.TimeoutExpired:
         return None
-    if p.returncode == 1 and p.stdout.strip():
+    if p.returncode == 1 and os.path.exists(outp):
         try:
-            return json.loads(p.stdout)
+            w = json.load(open(outp))
         except ValueError:
-            return dict(raw=p.stdout[-2000:])
+            w = None
+        os.remove(outp)
+        return w
     return None
 
 
